@@ -106,6 +106,8 @@ int flatcc_parse_buffer(flatcc_context_t ctx, const char *buf, size_t buflen)
     P->opts.disable_includes = 1;
     if ((size_t)buflen > P->opts.max_schema_size && P->opts.max_schema_size > 0) {
         fb_print_error(P, "input exceeds maximum allowed size\n");
+        /* Count the failure so that flatcc_generate_files refuses. */
+        ++P->failed;
         return -1;
     }
     /* Add self to set of visible schema. */
@@ -422,6 +424,10 @@ int flatcc_parse_file(flatcc_context_t ctx, const char *filename)
     }
 
 done:
+    if (ret) {
+        /* Also failures reported without a token (read errors, limits, failed includes) must block code generation. */
+        ++P->failed;
+    }
     /* Parser owns buffer so don't free it here. */
     checkfree(path);
     checkfree(include_file);
